@@ -3,5 +3,5 @@ CONSTANT Configs <- OutcomeQuick
 SPECIFICATION MCSpec
 VIEW MCView
 CONSTRAINT ExecBound
-INVARIANTS Lead_C04_HandlerLog
+INVARIANTS TypeOK C04_Outcome C04_HandlerLog C04_ReturnAgrees
 CHECK_DEADLOCK FALSE
